@@ -266,6 +266,37 @@ def posixTrim (pcs : List PatChar) (side : TrimSide) (len : TrimLen) : Value →
   | .scalar s => .scalar (posixTrimString pcs side len s)
   | .array vs => .array (vs.map (posixTrimString pcs side len))
 
+/-! ### Tilde expansion (XCU 2.6.1) -/
+
+/-- a character that is the result of an expansion not subject to field splitting or pathname expansion -/
+def protectedChar (c : Char) : AttrChar :=
+  { value := c, origin := .hardExpansion, isQuoted := false, isQuoting := false }
+
+/-- the quoting character that stands for an empty pathname until quote removal -/
+def emptyPathnameMark : AttrChar :=
+  { value := '"', origin := .hardExpansion, isQuoted := false, isQuoting := true }
+
+/-- the directory a tilde-prefix names: the value of `HOME` for `~`, the initial working directory of the login
+    name in the user database for `~name`; `none` where POSIX leaves the result unspecified (`HOME` unset —
+    or, in this shell, an array — and a login name the system does not know) -/
+def tildeDir (env : Env) (name : List Char) : Option (List Char) :=
+  if name = [] then env.getScalar "HOME" else env.homes.lookup name
+
+/-- the text that replaces the tilde-prefix: the directory — without its trailing slash when the prefix is
+    followed by a slash and the directory ends in one (XCU 2.6.1, Issue 8) —, and the tilde-prefix itself where
+    the result is unspecified (what the yash documentation states; a name never contains a slash, so nothing is
+    dropped there: `tilde_unspecified_unchanged`) -/
+def tildeText (env : Env) (name : List Char) (slash : Bool) : List Char :=
+  match tildeDir env name with
+  | some dir => if slash = true ∧ dir.getLast? = some '/' then dir.dropLast else dir
+  | none => if slash = true ∧ ('~' :: name).getLast? = some '/' then ('~' :: name).dropLast else '~' :: name
+
+/-- "The pathname resulting from tilde expansion shall be treated as if quoted to prevent it being altered by
+    field splitting and pathname expansion": the characters are hard-expansion results; an empty pathname still
+    yields a (then empty) field, which the quoting character stands for until quote removal -/
+def posixTilde (env : Env) (name : List Char) (slash : Bool) : List AttrChar :=
+  if tildeText env name slash = [] then [emptyPathnameMark] else (tildeText env name slash).map protectedChar
+
 /-- the vacancy reported in error messages -/
 def vacancyOf (v : Option Value) : Vacancy := (Vacancy.of v).getD .unset
 
@@ -331,6 +362,7 @@ mutual
     | .unq u => posixTextUnit env willSplit u
     | .sq s => (env, .ok [[quoteChar '\''] ++ s.map quotedLit ++ [quoteChar '\'']])
     | .dsq s => (env, .ok [[quoteChar '$', quoteChar '\''] ++ s.map quotedLit ++ [quoteChar '\'']])
+    | .tilde name slash => (env, .ok [posixTilde env name slash])
     | .dq t =>
       -- the content never splits, whatever the context of the quotes; an empty content is one empty field
       match (if t.isNil then (env, .ok [[]]) else posixTextGo env false [] t) with
@@ -406,6 +438,7 @@ def WordUnit.plain : WordUnit → Option (List Char)
   | .unq u => u.plain.map (fun c => [c])
   | .sq s => some s
   | .dsq s => some s
+  | .tilde _ _ => none
   | .dq t => t.plain
 
 /-- the string a word without expansions stands for: the enclosed characters, in order -/
